@@ -82,10 +82,21 @@ impl BRC20ProgEngine {
             }
         }
 
+        // Nothing has been changed yet: refuse what could only fail half way through.
+        // The genesis block has to be the next block, and the controller gets its address
+        // only from the first transaction of the indexer account.
+        let deploy_tx = load_brc20_deploy_tx();
+        if genesis_height != self.get_next_block_height()? {
+            return Err("Genesis height is not the next block height".into());
+        }
+        if self.get_account_nonce(deploy_tx.from)? != 0 {
+            return Err("BRC20_Controller can only be deployed by an unused indexer account".into());
+        }
+
         // Deploy BRC20 Controller contract
         let result = self.add_tx_to_block(
             genesis_timestamp,
-            &load_brc20_deploy_tx(),
+            &deploy_tx,
             0,
             genesis_height,
             genesis_hash,
